@@ -25,6 +25,22 @@ def generate(repo):
         tree = parse(repo, SOURCES[0])
         f = find_func(tree, '_get_names', cls='CollectorRegistry')
         d = find_assign(f, 'type_suffixes')
+        # the table must be the ONLY thing that decides the suffixes: one assignment, nothing imported or declared global
+        # inside the function (a dependency on module state would make the claims depend on configuration)
+        nassign = 0
+        for n in ast.walk(f):
+            if isinstance(n, (ast.Import, ast.ImportFrom, ast.Global, ast.Nonlocal)):
+                raise Fail('_get_names has an import/global statement: %s' % ast.unparse(n)[:80])
+            tg = []
+            if isinstance(n, ast.Assign):
+                tg = n.targets
+            elif isinstance(n, (ast.AugAssign, ast.AnnAssign)):
+                tg = [n.target]
+            elif isinstance(n, ast.NamedExpr):
+                tg = [n.target]
+            nassign += sum(1 for t in tg for x in ast.walk(t) if isinstance(x, ast.Name) and x.id == 'type_suffixes')
+        if nassign != 1:
+            raise Fail('type_suffixes is assigned %d times in _get_names' % nassign)
         if not isinstance(d, ast.Dict):
             raise Fail('type_suffixes is not a dict literal')
         seen = set()
